@@ -745,20 +745,31 @@ impl Runner {
         Runner { w, vh, steps: vec![], buffered_outs: vec![], buffered_wires: vec![], out_times: vec![], wire_times: vec![] }
     }
 
-    fn collect(&mut self) {
-        while let Ok(o) = self.vh.from_handler.try_recv() {
-            self.buffered_outs.push(o);
-            self.out_times.push(self.w.now);
-        }
-        while let Some(d) = self.vh.next_datagram() {
-            self.buffered_wires.push(d);
-            self.wire_times.push(self.w.now);
+    /// Drains what the handler has produced.  The channel to the application holds 50 reports (as in
+    /// Handler::spawn) and the handler waits for room: drain, let it run on, drain again until quiet.
+    async fn collect(&mut self) {
+        loop {
+            let mut n = 0;
+            while let Ok(o) = self.vh.from_handler.try_recv() {
+                self.buffered_outs.push(o);
+                self.out_times.push(self.w.now);
+                n += 1;
+            }
+            while let Some(d) = self.vh.next_datagram() {
+                self.buffered_wires.push(d);
+                self.wire_times.push(self.w.now);
+                n += 1;
+            }
+            if n == 0 {
+                break;
+            }
+            settle().await;
         }
     }
 
     /// Closes a model step: everything observed since the previous step belongs to this event.
-    fn close_step(&mut self, coq_event: String) {
-        self.collect();
+    async fn close_step(&mut self, coq_event: String) {
+        self.collect().await;
         let outs_raw = std::mem::take(&mut self.buffered_outs);
         if std::env::var("VERIF_TRACE").is_ok() {
             eprintln!("step {} t={} {}: outs={:?} wires={} exempt={:?}", self.steps.len(), self.w.now, &coq_event[..coq_event.len().min(60)], outs_raw.iter().map(|o| format!("{:?}", o).chars().take(60).collect::<String>()).collect::<Vec<_>>(), self.buffered_wires.len(), self.vh.exemptions.read());
@@ -1131,16 +1142,16 @@ impl Runner {
             tokio::time::advance(Duration::from_millis(GRID_MS)).await;
             self.w.now += GRID_MS;
             settle().await;
-            self.collect();
+            self.collect().await;
             // expiry of our challenges
             self.expire_challenges();
             // one model step per grid instant at which something was observed: a step then holds
             // the timers of (nearly always) one deadline only
             if !self.buffered_outs.is_empty() || !self.buffered_wires.is_empty() {
-                self.close_step("EvTick".into());
+                self.close_step("EvTick".into()).await;
             }
         }
-        self.close_step("EvTick".into());
+        self.close_step("EvTick".into()).await;
     }
 
     async fn tick_gap(&mut self) {
@@ -1148,7 +1159,7 @@ impl Runner {
         tokio::time::advance(Duration::from_millis(GRID_MS)).await;
         self.w.now += GRID_MS;
         settle().await;
-        self.collect();
+        self.collect().await;
         self.expire_challenges();
     }
 
@@ -1193,14 +1204,14 @@ impl Runner {
         // request ids must be distinct per case
         let rid = self.w.it.rid(&id);
         if self.w.reqs.iter().any(|q| q.rid == rid) {
-            return self.close_step("EvTick".into());
+            return self.close_step("EvTick".into()).await;
         }
         let b = self.w.it.body(&body);
         let cc = self.coq_contact(&contact);
         self.w.reqs.push(OutReq { peer: pi, rid, rid_bytes: id.0.clone(), external: true, with_enr, nonce: [0; 12], first_tx: 0, answered: false, terminal: 0, body: body.clone(), tx_per_key: BTreeMap::new(), responses_seen: 0, first_total: 0 });
         let _ = self.vh.to_handler.send(HandlerIn::Request(contact, Box::new(Request { id, body })));
         settle().await;
-        self.close_step(format!("EvRequest {} {} {}", cc, rid, b));
+        self.close_step(format!("EvRequest {} {} {}", cc, rid, b)).await;
     }
 
     async fn app_self_request(&mut self, rng: &mut Rng) {
@@ -1215,7 +1226,7 @@ impl Runner {
         self.w.reqs.push(OutReq { peer: 0, rid, rid_bytes: id.0.clone(), external: true, with_enr: false, nonce: [0; 12], first_tx: 0, answered: false, terminal: 0, body: body.clone(), tx_per_key: BTreeMap::new(), responses_seen: 0, first_total: 0 });
         let _ = self.vh.to_handler.send(HandlerIn::Request(contact, Box::new(Request { id, body })));
         settle().await;
-        self.close_step(format!("EvRequest {} {} {}", cc, rid, b));
+        self.close_step(format!("EvRequest {} {} {}", cc, rid, b)).await;
     }
 
     async fn app_answer_wru(&mut self, idx: usize, known: u8) {
@@ -1238,7 +1249,7 @@ impl Runner {
         let ae = enr.as_ref().map(|e| self.w.it.enr(e));
         let _ = self.vh.to_handler.send(HandlerIn::WhoAreYou(wref, enr));
         settle().await;
-        self.close_step(format!("EvWhoAreYou ({}, {}) {} {}", na.0, na.1, coq_nonce(&n), coq_oenr(&ae)));
+        self.close_step(format!("EvWhoAreYou ({}, {}) {} {}", na.0, na.1, coq_nonce(&n), coq_oenr(&ae))).await;
     }
 
     async fn app_respond(&mut self, rng: &mut Rng, idx: usize, multi: u8) {
@@ -1257,7 +1268,7 @@ impl Runner {
         let rb = self.w.it.rbody(&body);
         let _ = self.vh.to_handler.send(HandlerIn::Response(na, Box::new(Response { id, body })));
         settle().await;
-        self.close_step(format!("EvResponse ({}, {}) {} {}", a.0, a.1, rid, rb.coq()));
+        self.close_step(format!("EvResponse ({}, {}) {} {}", a.0, a.1, rid, rb.coq())).await;
     }
 
     /// Delivers a datagram; returns false if it is not a decodable discv5 packet for the local node
@@ -1286,7 +1297,7 @@ impl Runner {
         self.w.recorded.push((src, bytes.clone(), kind, maker));
         match term {
             Some(t) => {
-                self.collect();
+                self.collect().await;
                 // C02 / C01 monitors on what this datagram caused
                 // (a handshake extended in flight may still establish the session: the id signature
                 // does not cover the auth-data; what must not happen is the delivery of its message)
@@ -1320,10 +1331,10 @@ impl Runner {
                 {
                     self.w.failures.push(("C03".into(), "a replayed handshake packet was accepted (session established / message delivered)".into()));
                 }
-                self.close_step(format!("EvInbound {} {}", a, t.coq()));
+                self.close_step(format!("EvInbound {} {}", a, t.coq())).await;
             }
             None => {
-                self.collect();
+                self.collect().await;
                 // (events of timers that fired in the gap before the datagram may be buffered as well;
                 // what an undecodable datagram must not cause is a delivery or a session)
                 let bad = self.buffered_outs.iter().any(|o| matches!(o, HandlerOut::Request(..) | HandlerOut::Response(..) | HandlerOut::Established(..) | HandlerOut::WhoAreYou(..)));
@@ -1337,7 +1348,7 @@ impl Runner {
                 self.buffered_outs.retain(|_| *k.next().unwrap());
                 let mut k = keep.iter();
                 self.out_times.retain(|_| *k.next().unwrap());
-                self.close_step("EvTick".into());
+                self.close_step("EvTick".into()).await;
             }
         }
     }
@@ -1882,6 +1893,18 @@ async fn run_case(seed: u64, idx: u64, focus: &str, thorough: bool, fixes: &str)
         }
         r.w.hist.add("scripted:session_expiry");
         moves.push(format!("scripted: sessions, idle for {} ms (session timeout {} ms), then traffic", idle * GRID_MS, ttl_ms));
+    }
+    // scripted opening: a burst of outcomes - sixty requests to a peer that never answers are queued
+    // behind the first one and all fail in the step in which it gives up (the channel to the
+    // application holds 50 reports: every one of them must still arrive)
+    if focus == "c04" && rng.chance(1, 16) {
+        let p = rng.below(npeers as u64) as usize;
+        for _ in 0..60 {
+            r.app_request(&mut rng, p, true, 0).await;
+        }
+        r.advance((retries as u64) * (TIMEOUT_MS / GRID_MS + 2) + 4).await;
+        r.w.hist.add("scripted:burst_of_sixty_outcomes");
+        moves.push(format!("scripted: sixty requests to silent peer {}, then its request times out", p));
     }
     // scripted opening: a FINDNODE answered by a NODES response in three packets (all delivered, or
     // one missing), another request to the same peer in flight, then a full timeout passes
